@@ -457,9 +457,25 @@ def r2c_shared_trunk(repo: Repo, rep):
 
 
 # ------------------------------------------------------------------ R-C16-4
-def r4_full_dataset(repo: Repo, rep):
-    R = rep.rule("R-C16-4", "use_full_dataset: one loop over the whole loader; 'inf' -> running max of per-batch max, else + mean(a**norm)/len(loader)",
-                 floor=3, why="a break/skip or a missing division changes the aggregate over the data set")
+def _flag(guards, what):
+    """polarity of a normalised guard among (test, pol) pairs; None if undecided on this variant"""
+    from ..util import norm_compare
+    for g, pol in guards:
+        op, l, r, npol = norm_compare(g, pol)
+        l, r = l.replace('"', "'"), r.replace('"', "'")
+        if what == "inf" and op == "==" and {l, r} == {"'inf'", "self.norm"}:
+            return npol
+        if what == "root" and op == "==" and {l, r} <= {"1.0", "1", "self.root"} and "self.root" in (l, r):
+            return not npol  # guard normalised to `root == 1`: the root is applied when it is false
+        if what == "full" and op == "truth" and l == "self.use_full_dataset":
+            return npol
+    return None
+
+
+def data_loss_rules(repo: Repo, rep, R_full: str, R_single: str):
+    """Shared by C16 (aggregation over the loader) and C04 (documented norm): every variant of the expanded
+    loss expression (helpers inlined, conditional helpers resolved both ways) must have the documented shape."""
+    from ..inline import expand_helpers, variants
     cond = repo.cls("problem.conditions.condition.Condition")
     n = 0
     for ci in repo.subclasses(cond):
@@ -470,47 +486,88 @@ def r4_full_dataset(repo: Repo, rep):
         n += 1
         loops = [l for l in ast.walk(fi.node) if isinstance(l, ast.For) and "dataloader" in dump(l.iter)]
         if len(loops) != 1:
-            rep.undecided(R, fi.site(), fi.fq, "one loop over self.dataloader", f"{len(loops)} loops")
+            rep.undecided(R_full, fi.site(), fi.fq, "one loop over self.dataloader", f"{len(loops)} loops")
             continue
         loop = loops[0]
         it = dump(loop.iter)
-        rep.check(R, it in ("iter(self.dataloader)", "self.dataloader"), fi.site(loop), fi.fq, "the loop ranges over the whole loader", it, it)
+        rep.check(R_full, it in ("iter(self.dataloader)", "self.dataloader"), fi.site(loop), fi.fq, "the loop ranges over the whole loader", it, it)
         jumps = [type(s).__name__ for s in ast.walk(loop) if isinstance(s, (ast.Break, ast.Continue, ast.Return))]
-        rep.check(R, not jumps, fi.site(loop), fi.fq, "no break/continue/return inside the aggregation loop", str(jumps), str(jumps))
+        rep.check(R_full, not jumps, fi.site(loop), fi.fq, "no break/continue/return inside the aggregation loop", str(jumps), str(jumps))
         for p in paths(fi.node):
-            if p.ret is RAISE:
+            if p.ret is RAISE or p.ret is None:
                 continue
-            full = [pol for g, pol, k in p.guards if dump(g) == "self.use_full_dataset"]
-            if not (full and full[0]):
+            base_guards = [(g, pol) for g, pol, k in p.guards if k == "if"]
+            full = _flag(base_guards, "full")
+            if full is None:
+                rep.undecided(R_full, fi.site(p.ret_node), fi.fq, "path decided on use_full_dataset", "no such guard")
                 continue
-            inf = [pol for g, pol, k in p.guards if dump(g).replace('"', "'") == "self.norm == 'inf'"]
-            root_applied = [pol for g, pol, k in p.guards if dump(g) == "self.root != 1.0"]
-            loss = p.env.get("loss")
-            if loss is None:
-                rep.undecided(R, fi.site(), fi.fq, "loss accumulated", "no `loss` variable")
-                continue
-            core = loss
-            if root_applied and root_applied[0]:
-                if isinstance(core, ast.BinOp) and isinstance(core.op, ast.Pow) and dump(core.right).replace(" ", "") in ("1/self.root", "1.0/self.root"):
-                    core = core.left
-                else:
-                    rep.violation(R, fi.site(), fi.fq, "root applied last, to the aggregate", dump(loss)[:120], dump(loss)[:120])
+            R = R_full if full else R_single
+            keep = lambda f: f.name.startswith("_") and f.name != "_compute_dist" and not f.name.startswith("__")
+            e = expand_helpers(repo, ci, p.ret, accept=keep)
+            for extra, v in variants(e):
+                guards = base_guards + extra
+                inf, root = _flag(guards, "inf"), _flag(guards, "root")
+                unknown = [dump(c.func) for c in ast.walk(v) if isinstance(c, ast.Call) and dump(c.func).startswith("self._") and dump(c.func) != "self._compute_dist"]
+                if unknown or inf is None or root is None:
+                    rep.undecided(R, fi.site(p.ret_node), fi.fq, "loss expression decidable (norm/root flags, helpers inlined)", f"unknown {unknown[:1]} inf={inf} root={root}")
                     continue
-            lv = [k for k, v in p.loopvars.items() if "dataloader" in dump(v)]
-            dist = f"self._compute_dist({lv[0]}, device)" if lv else None
-            if inf and inf[0]:
-                good = (isinstance(core, ast.Call) and ends(attr_chain(core.func), "maximum", "max") and len(core.args) == 2
-                        and _is_zero_init(core.args[0]) and dump(core.args[1]) in (f"torch.max({dist})", f"{dist}.max()"))
-                rep.check(R, good, fi.site(), fi.fq, "loss = maximum(loss, max(dist(batch)))", dump(core)[:140], dump(core)[:140])
-            else:
-                good = False
-                if isinstance(core, ast.BinOp) and isinstance(core.op, ast.Add) and _is_zero_init(core.left):
-                    t = core.right
-                    if isinstance(t, ast.BinOp) and isinstance(t.op, ast.Div) and dump(t.right) == "len(self.dataloader)":
-                        good = dump(t.left) in (f"torch.mean({dist} ** self.norm)", f"({dist} ** self.norm).mean()")
-                rep.check(R, good, fi.site(), fi.fq, "loss = loss + mean(dist(batch)**norm) / len(loader)", dump(core)[:160], dump(core)[:160])
+                core = v
+                if root:
+                    if isinstance(core, ast.BinOp) and isinstance(core.op, ast.Pow) and dump(core.right).replace(" ", "") in ("1/self.root", "1.0/self.root"):
+                        core = core.left
+                    else:
+                        rep.violation(R, fi.site(p.ret_node), fi.fq, "root applied once, last, to the aggregate: loss ** (1/root)", dump(v)[:140], _abstract(v))
+                        continue
+                if "self.root" in dump(core):
+                    rep.violation(R, fi.site(p.ret_node), fi.fq, "root applied once, last, to the aggregate", dump(core)[:140], _abstract(v))
+                    continue
+                dists = {dump(c) for c in ast.walk(core) if isinstance(c, ast.Call) and dump(c.func) == "self._compute_dist"}
+                if len(dists) != 1:
+                    rep.violation(R, fi.site(p.ret_node), fi.fq, "exactly one distance evaluation per batch", f"{len(dists)} evaluations", _abstract(v))
+                    continue
+                dist = list(dists)[0]
+                t = dump(core)
+                if full:
+                    if inf:
+                        good = (isinstance(core, ast.Call) and ends(attr_chain(core.func), "maximum", "max") and len(core.args) == 2
+                                and _is_zero_init(core.args[0]) and dump(core.args[1]) in (f"torch.max({dist})", f"{dist}.max()"))
+                        want = "loss = maximum(loss, max(dist(batch)))"
+                    else:
+                        good = False
+                        if isinstance(core, ast.BinOp) and isinstance(core.op, ast.Add) and _is_zero_init(core.left):
+                            tt = core.right
+                            if isinstance(tt, ast.BinOp) and isinstance(tt.op, ast.Div) and dump(tt.right) == "len(self.dataloader)":
+                                good = dump(tt.left) in (f"torch.mean({dist} ** self.norm)", f"({dist} ** self.norm).mean()")
+                        want = "loss = loss + mean(dist(batch)**norm) / len(loader)"
+                else:
+                    if inf:
+                        good = t in (f"torch.max({dist})", f"{dist}.max()")
+                        want = "inf-norm: max of the distances"
+                    else:
+                        good = t in (f"torch.mean({dist} ** self.norm)", f"({dist} ** self.norm).mean()")
+                        want = "p-norm: mean(dist ** norm)"
+                rep.check(R, good, fi.site(p.ret_node), fi.fq, want, t[:170], _abstract(v))
     if n == 0:
-        rep.undecided(R, "-", "-", "conditions with use_full_dataset", "none found")
+        rep.undecided(R_full, "-", "-", "conditions with use_full_dataset", "none found")
+
+
+def _abstract(e) -> str:
+    """operator skeleton of a loss expression (stable under renaming of temporaries)"""
+    out = []
+    for n in ast.walk(e):
+        if isinstance(n, ast.Call):
+            out.append(dump(n.func).split(".")[-1])
+        elif isinstance(n, ast.BinOp):
+            out.append(type(n.op).__name__)
+    return " ".join(out)[:200]
+
+
+def r4_full_dataset(repo: Repo, rep):
+    R = rep.rule("R-C16-4", "use_full_dataset: one loop over the whole loader; 'inf' -> running max of per-batch max, else + mean(a**norm)/len(loader); root last",
+                 floor=3, why="a break/skip, a missing division or a per-batch root changes the aggregate over the data set")
+    R2 = rep.rule("R-C16-4b", "single-batch path: max for 'inf', mean(a**norm) else, root last", floor=3,
+                  why="the documented norm of model-minus-target")
+    data_loss_rules(repo, rep, R, R2)
 
 
 def _is_zero_init(e):
